@@ -164,9 +164,15 @@ func (e *Exec) havoc(st *State, vars map[*types.Var]bool, fields map[string]type
 		fs = append(fs, k)
 	}
 	sort.Strings(fs)
+	ownW := e.w.ownWrites(e.fi)
 	for _, k := range fs {
 		e.heapArr(st, k, fields[k])
 		st.heap[k] = e.fresh(st, "H_"+sanitize(k), "(Array Int "+sortOf(fields[k])+")")
+		if len(ownW[k]) == 0 && st.heap0[k] != "" && e.inlineDepth == 0 {
+			// this function writes the field only on objects it allocates (ownership/frame pass): objects that existed
+			// at function entry keep it through every iteration
+			st.pc = append(st.pc, "(forall ((r Int)) (! (=> (< r "+st.top0+") (= (select "+st.heap[k]+" r) (select "+st.heap0[k]+" r))) :pattern ((select "+st.heap[k]+" r))))")
+		}
 	}
 }
 
